@@ -36,6 +36,12 @@ def _key_field(k):
             return b.attr
         if isinstance(b, ast.Subscript) and isinstance(b.value, ast.Name) and b.value.id == v and isinstance(b.slice, ast.Constant):
             return b.slice.value
+        if isinstance(b, ast.BinOp) and isinstance(b.op, (ast.Add, ast.Sub)):
+            l = _key_field(ast.Lambda(args=k.args, body=b.left))
+            r = _key_field(ast.Lambda(args=k.args, body=b.right))
+            if l is not None and r is not None:
+                return f"{l}{'+' if isinstance(b.op, ast.Add) else '-'}{r}"
+            return None
         if isinstance(b, ast.Tuple):
             parts = []
             for x in b.elts:
@@ -259,13 +265,13 @@ def order_rule(prog, rep, rule="ORDER"):
             g = cfg_of(fi)
             slices = [st for st, _ in steps if isinstance(st.value, ast.Subscript) and isinstance(st.value.slice, ast.Slice) and st.value.slice.upper is not None]
             others = [st for st, _ in steps if st not in slices]
-            if len(slices) != 1:
-                rep.undecided("LIMIT", fi.short, "slice", f"{len(slices)} limiting slices", fi.loc())
-            else:
-                sn = g.node_of(slices[0])
+            if not slices:
+                rep.undecided("LIMIT", fi.short, "slice", "no limiting slice", fi.loc())
+            for sl in slices:
+                sn = g.node_of(sl)
                 after = g.reach_avoiding([sn])
                 late = [st for st in others if g.node_of(st) in after]
-                rep.check(not late, "LIMIT", fi.short, "slice placement", "the limit slice comes after sorting and after both window filters", f"the list is sorted/filtered after it was cut to the limit (line {late[0].lineno if late else ''}): a limited read of a window keeps the wrong events", fi.loc(slices[0]))
+                rep.check(not late, "LIMIT", fi.short, "slice placement", "the limit slice comes after sorting and after both window filters", f"the list is sorted/filtered after it was cut to the limit (line {late[0].lineno if late else ''}): a limited read of a window keeps the wrong events", fi.loc(sl))
     rep.extra["order_descriptors"] = {k: str(v) for k, v in descs.items()}
     return descs
 
@@ -676,6 +682,23 @@ def pred_peewee(prog, rep, rule="PRED"):
             ok = norm(n.value) in (f"{nm}.astimezone(timezone.utc)", f"{nm}.astimezone(datetime.timezone.utc)")
             rep.check(ok, rule, fi.short, f"{nm} = ...", "re-bound to the same instant in UTC", f"window edge re-bound to `{norm(n.value)}`", fi.loc(n))
     _judge_pred(found, rep, rule, fi.short, "window predicate", fi.loc(), allow_prefilter=True)
+    # the stored instants are UTC ISO text compared as text: each edge must be converted to UTC before it is compared
+    g = cfg_of(fi)
+    for nm in ("starttime", "endtime"):
+        uses = [n for n in walk_own(fi.node) if isinstance(n, ast.Call) and isinstance(n.func, ast.Attribute) and n.func.attr == "where" and any(isinstance(x, ast.Name) and x.id == nm for x in ast.walk(n))]
+        conv = [n for n in walk_own(fi.node) if isinstance(n, ast.Assign) and len(n.targets) == 1 and norm(n.targets[0]) == nm and norm(n.value) in (f"{nm}.astimezone(timezone.utc)", f"{nm}.astimezone(datetime.timezone.utc)")]
+        cn = {g.node_of(c) for c in conv}
+
+        def _edge(u, v, lab, nm=nm, cn=cn):
+            if v in cn:
+                return False
+            if lab and lab[0] == "cond" and norm(lab[1]) in (nm, f"{nm} is not None") and lab[2] is False:
+                return False  # the edge is absent on this path: it cannot reach a comparison of that edge
+            return True
+
+        reach = g.reach_filtered(g.entry, _edge)
+        ok = bool(uses) and bool(conv) and all(g.node_of(u) not in reach for u in uses)
+        rep.check(ok, rule, fi.short, f"{nm} normalised to UTC", f"{nm} = {nm}.astimezone(timezone.utc) dominates its comparisons", f"`{nm}` is compared with the stored (UTC, text) instants without first being converted to UTC: a window edge given with another UTC offset is compared by its wall-clock digits, so the window shifts by that offset", fi.loc())
     # both readers use it with the edges in order
     for m in ("get_events", "get_eventcount"):
         f2 = prog.func(f"PeeweeStorage.{m}")
@@ -734,10 +757,10 @@ def limit_rule(prog, rep, rule="LIMIT"):
         # negative -> unbounded
         if cname == "MemoryStorage":
             slices = [n for n in walk_own(fi.node) if isinstance(n, ast.Subscript) and isinstance(n.slice, ast.Slice) and n.slice.upper is not None and norm(n.slice.upper) == "limit" and n.slice.lower is None]
-            if len(slices) != 1:
-                rep.undecided(rule, fi.short, "[:limit]", f"{len(slices)} slices by limit", fi.loc())
+            if not slices:
+                rep.undecided(rule, fi.short, "[:limit]", "no slice by limit", fi.loc())
                 continue
-            sn = g.node_of(slices[0])
+            sn = g.node_of(slices[-1])
             neg = [n for n in g.nodes if n.kind == "branch" and isinstance(n.ast, ast.Compare) and norm(n.ast) in ("limit < 0", "0 > limit", "limit <= -1")]
             okn = False
             if len(neg) == 1 and g.dominates(neg[0].id, sn):
